@@ -116,7 +116,7 @@ theorem jsonml_roundtrip (m : Mapper) (useNs : Bool) (sch : Nat → Option Facts
   (tree_rt (JsonML.conv m useNs) (jsonml_levelOK m useNs) sch n hw fuel hfuel).1
 
 /-- identity mapper (a document without namespaces) -/
-def idMapper : Mapper := ⟨id, id, id⟩
+def idMapper : Mapper := { mp := id, um := id, umA := id }
 
 def exFacts : Facts :=
   { hasGroup := true, simple := false, mixed := true, emptyContent := false, complex := true,
@@ -282,7 +282,13 @@ theorem dataelement_roundtrip_counterexample :
   one key space.  Proved: the statement under the decidable guards of `Dflt.WF1` (same-named children
   contiguous, no character data between children, no key collisions, no list-typed children, attributes/text
   not dropped by the options); the three `_counterexample`s below show what happens outside the guards and
-  are replayed on the real converter by the harness. -/
+  are replayed on the real converter by the harness.
+
+  `element_encode` resolves the key of EACH child item with the declarations that the item itself carries
+  (base.py:488-495, `Dflt.putValue`/`Dflt.kidsX`, `Mapper.umX`; the runs of a key whose items disagree are
+  emitted item by item under the names the items denote).  The one-level theorems are stated for one mapper per
+  level, so `Dflt.KidOK.umX` asks that the declarations carried by a child do not change what the child's key
+  denotes. -/
 
 theorem keysOf_shape {α} (m : Mapper) (l : List (Item α)) : Dflt.keysOf m (shape l) = Dflt.keysOf m l := by
   induction l with
@@ -398,9 +404,11 @@ example : Dflt.WF1 {} idMapper abFacts exHd dfItems ∧ Dflt.Kids dfItems := by
     simp only [dfItems, List.mem_cons, Item.child.injEq, List.mem_nil_iff, or_false] at h
     rcases h with ⟨_, _, rfl⟩ | ⟨_, _, rfl⟩ | ⟨_, _, rfl⟩ <;> rfl
   have ka : Dflt.KidOK {} idMapper abFacts "a" :=
-    { cls := by decide, um := rfl, decl := ⟨{ name := "a", ty := 1, single := false }, by simp [findChild, abFacts], rfl⟩ }
+    { cls := by decide, um := rfl, umX := fun _ => rfl,
+      decl := ⟨{ name := "a", ty := 1, single := false }, by simp [findChild, abFacts], rfl⟩ }
   have kb : Dflt.KidOK {} idMapper abFacts "b" :=
-    { cls := by decide, um := rfl, decl := ⟨{ name := "b", ty := 1, single := false }, by simp [findChild, abFacts], rfl⟩ }
+    { cls := by decide, um := rfl, umX := fun _ => rfl,
+      decl := ⟨{ name := "b", ty := 1, single := false }, by simp [findChild, abFacts], rfl⟩ }
   refine ⟨{ attrsUm := by simp [idMapper], attrsNodup' := by simp [exHd], attrPre := fun _ => rfl,
             attrClass := ?_, attrsNodup := by simp [Dflt.mapAttrs, exHd], xmlnsNodup := by simp [xmlnsEntries, exHd],
             xmlnsClass := ?_, xmlnsBack := by decide, textNotXmlns := ?_,
@@ -462,7 +470,7 @@ example : contentKeys (Dflt.enc {} idMapper abFacts "root" (Dflt.dec {} idMapper
 def tblMapper (t : List (String × String)) : Mapper :=
   let mp := fun k => match t.find? (·.1 == k) with | some p => p.2 | none => k
   let um := fun k => match t.find? (·.2 == k) with | some p => p.1 | none => k
-  ⟨mp, um, um⟩
+  { mp, um, umA := um }
 
 def sRoot : NsScope := [("", "urn:t")]
 def sA : NsScope := [("p", "urn:t"), ("", "")] ++ sRoot
